@@ -1,12 +1,12 @@
 CONSTANTS
-  N = 2
-  MaxCmd = 2
+  N = 3
+  MaxCmd = 1
   MaxVar = 1
   NCtx = 0
-  Nesting = FALSE
+  Nesting = TRUE
   TaskAllow = FALSE
   AtomicLaunch = TRUE
-  ErrFirst = TRUE
+  ErrFirst = FALSE
   HookKinds = {"none"}
 SPECIFICATION Spec
 INVARIANTS CommandsAfterDependencies StopsAtFailure FinalOK RunOnlyWhileStageRunning UpBeforeUse DownAfterAll OneUpAtATime NothingRunsAtReturn NoDoubleLaunch
